@@ -28,11 +28,23 @@ func streamTotal(n int, f func(i int)) uint64 {
 	var m0, m1 runtime.MemStats
 	runtime.ReadMemStats(&m0)
 	for i := 0; i < n; i++ {
-		f(i)
+		pads[i&7](f, i)
 	}
 	runtime.ReadMemStats(&m1)
 	return m1.Mallocs - m0.Mallocs
 }
+
+// pads: the measured call is made from eight different stack positions (the frames differ by 8 bytes), in
+// rotation: a buffer whose usable size depends on the alignment of the caller's frame shows in the total.
+func pad1(f func(int), i int) { var p [8]byte; f(i); runtime.KeepAlive(&p) }
+func pad2(f func(int), i int) { var p [16]byte; f(i); runtime.KeepAlive(&p) }
+func pad3(f func(int), i int) { var p [24]byte; f(i); runtime.KeepAlive(&p) }
+func pad4(f func(int), i int) { var p [32]byte; f(i); runtime.KeepAlive(&p) }
+func pad5(f func(int), i int) { var p [40]byte; f(i); runtime.KeepAlive(&p) }
+func pad6(f func(int), i int) { var p [48]byte; f(i); runtime.KeepAlive(&p) }
+func pad7(f func(int), i int) { var p [56]byte; f(i); runtime.KeepAlive(&p) }
+
+var pads = []func(func(int), int){func(f func(int), i int) { f(i) }, pad1, pad2, pad3, pad4, pad5, pad6, pad7}
 
 // StreamCase: one stream measurement.
 type StreamCase struct {
@@ -52,6 +64,10 @@ type streamObj interface {
 }
 
 type streamAPI struct {
+	// local returns a call that works on an object held BY VALUE in a local variable (a copy of the parsed
+	// object, or the zero value): kind is set | get | vector | scores. Such an object lives on the stack
+	// unless the method lets its receiver escape.
+	local  func(o streamObj, kind, abv, val string) func(i int)
 	parse  func(s string) (streamObj, error) // stores the result in a typed sink
 	scores func(o streamObj)
 	rating func(float64) (string, error)
@@ -62,6 +78,27 @@ func streamTarget(vi int) streamAPI {
 	switch vi {
 	case 0:
 		return streamAPI{
+			local: func(o streamObj, kind, abv, val string) func(i int) {
+				c := o.(*gocvss20.CVSS20)
+				switch kind {
+				case "set":
+					return func(i int) {
+						b := *c
+						sinkErr = b.Set(abv, val)
+						var z gocvss20.CVSS20
+						sinkErr = z.Set(abv, val)
+						sinkStr, _ = z.Get(abv)
+					}
+				case "get":
+					return func(i int) { b := *c; sinkStr, sinkErr = b.Get(abv) }
+				case "vector":
+					return func(i int) { b := *c; sinkStr = b.Vector() }
+				}
+				return func(i int) {
+					b := *c
+					sinkF = b.BaseScore() + b.TemporalScore() + b.EnvironmentalScore() + b.Impact() + b.Exploitability()
+				}
+			},
 			parse: func(s string) (streamObj, error) { c, err := gocvss20.ParseVector(s); sink20 = c; return c, err },
 			scores: func(o streamObj) {
 				c := o.(*gocvss20.CVSS20)
@@ -70,6 +107,27 @@ func streamTarget(vi int) streamAPI {
 		}
 	case 1:
 		return streamAPI{
+			local: func(o streamObj, kind, abv, val string) func(i int) {
+				c := o.(*gocvss30.CVSS30)
+				switch kind {
+				case "set":
+					return func(i int) {
+						b := *c
+						sinkErr = b.Set(abv, val)
+						var z gocvss30.CVSS30
+						sinkErr = z.Set(abv, val)
+						sinkStr, _ = z.Get(abv)
+					}
+				case "get":
+					return func(i int) { b := *c; sinkStr, sinkErr = b.Get(abv) }
+				case "vector":
+					return func(i int) { b := *c; sinkStr = b.Vector() }
+				}
+				return func(i int) {
+					b := *c
+					sinkF = b.BaseScore() + b.TemporalScore() + b.EnvironmentalScore() + b.Impact() + b.Exploitability()
+				}
+			},
 			parse: func(s string) (streamObj, error) { c, err := gocvss30.ParseVector(s); sink30 = c; return c, err },
 			scores: func(o streamObj) {
 				c := o.(*gocvss30.CVSS30)
@@ -79,6 +137,27 @@ func streamTarget(vi int) streamAPI {
 		}
 	case 2:
 		return streamAPI{
+			local: func(o streamObj, kind, abv, val string) func(i int) {
+				c := o.(*gocvss31.CVSS31)
+				switch kind {
+				case "set":
+					return func(i int) {
+						b := *c
+						sinkErr = b.Set(abv, val)
+						var z gocvss31.CVSS31
+						sinkErr = z.Set(abv, val)
+						sinkStr, _ = z.Get(abv)
+					}
+				case "get":
+					return func(i int) { b := *c; sinkStr, sinkErr = b.Get(abv) }
+				case "vector":
+					return func(i int) { b := *c; sinkStr = b.Vector() }
+				}
+				return func(i int) {
+					b := *c
+					sinkF = b.BaseScore() + b.TemporalScore() + b.EnvironmentalScore() + b.Impact() + b.Exploitability()
+				}
+			},
 			parse: func(s string) (streamObj, error) { c, err := gocvss31.ParseVector(s); sink31 = c; return c, err },
 			scores: func(o streamObj) {
 				c := o.(*gocvss31.CVSS31)
@@ -88,6 +167,24 @@ func streamTarget(vi int) streamAPI {
 		}
 	}
 	return streamAPI{
+		local: func(o streamObj, kind, abv, val string) func(i int) {
+			c := o.(*gocvss40.CVSS40)
+			switch kind {
+			case "set":
+				return func(i int) {
+					b := *c
+					sinkErr = b.Set(abv, val)
+					var z gocvss40.CVSS40
+					sinkErr = z.Set(abv, val)
+					sinkStr, _ = z.Get(abv)
+				}
+			case "get":
+				return func(i int) { b := *c; sinkStr, sinkErr = b.Get(abv) }
+			case "vector":
+				return func(i int) { b := *c; sinkStr = b.Vector() }
+			}
+			return func(i int) { b := *c; sinkF = b.Score() }
+		},
 		parse:  func(s string) (streamObj, error) { c, err := gocvss40.ParseVector(s); sink40 = c; return c, err },
 		scores: func(o streamObj) { sinkF = o.(*gocvss40.CVSS40).Score() },
 		rating: gocvss40.Rating,
@@ -155,6 +252,11 @@ func checkStream(c StreamCase) error {
 			f, budget = func(i int) { sinkErr = obj(i).Set(abv, cur[i%len(cur)]); sinkErr = obj(i).Set(abv, "zz") }, 0
 		case "scores":
 			f, budget = func(i int) { api.scores(obj(i)) }, 0
+		case "set-local", "get-local", "scores-local":
+			cur, _ := objs[0].Get(abv)
+			f, budget = api.local(objs[0], c.Func[:len(c.Func)-6], abv, cur), 0
+		case "vector-local":
+			f, budget, exact = api.local(objs[0], "vector", abv, ""), uint64(c.N), true
 		case "rating":
 			if api.rating == nil {
 				return nil
@@ -194,17 +296,27 @@ func streamCases(nSame, nDistinct int, from int) []StreamCase {
 	for vi, v := range spec.Versions {
 		full := spec.Assignment{}
 		base := spec.Assignment{}
+		longest := spec.Assignment{} // the longest spelling of every metric: the longest vector of the version
 		for _, m := range v.Metrics {
 			full[m.Abv] = m.Vals[len(m.Vals)-1]
 			base[m.Abv] = m.Vals[0]
+			for _, x := range m.Vals {
+				if len(x) >= len(longest[m.Abv]) && (m.Mandatory || x != v.ND) {
+					longest[m.Abv] = x
+				}
+			}
 		}
 		for _, fn := range []string{"parse", "vector", "get", "set", "scores", "rating", "nomenclature"} {
-			for _, a := range []spec.Assignment{base, full} {
+			for _, a := range []spec.Assignment{base, full, longest} {
 				out = append(out, StreamCase{Ver: vi, Func: fn, Stream: "same", Vector: spec.Canon(v, a), N: nSame})
 			}
 			if fn != "rating" {
 				out = append(out, StreamCase{Ver: vi, Func: fn, Stream: "distinct", From: from, N: nDistinct})
 			}
+		}
+		// objects held by value in a local variable
+		for _, fn := range []string{"set-local", "get-local", "vector-local", "scores-local"} {
+			out = append(out, StreamCase{Ver: vi, Func: fn, Stream: "same", Vector: spec.Canon(v, longest), N: nSame / 4})
 		}
 	}
 	return out
